@@ -3,7 +3,7 @@
    _lower table of each package): what the Properties files quote. *)
 From Strcase Require Import Base Utf8 Utf8Facts Spec SpecIndex Impl Impl2 Impl3 Impl4 Impl5 Refine_Compare Refine_Prefix Refine_Suffix Refine_Count
   Refine_RuneCase Utf8Enc Refine_RuneCase2 Refine_Byte Refine_Rune FoldFacts2
-  Impl6 Refine_RK Refine_Index Refine_Index2 Refine_Index3
+  Impl6 Impl7 Refine_RK Refine_Index Refine_Index2 Refine_Index3 Refine_RKRev Refine_Last
   Fold FoldFacts FoldTables FoldFacts121.
 
 Theorem width_facts121 : width_facts fold121.
@@ -156,6 +156,54 @@ Theorem cut_index_refines121 s sep :
 Proof. apply (cut_refines fold121 Index121). intros; apply index_refines121; assumption. Qed.
 
 End IndexInst.
+
+(* ---- the right-to-left searches ---- *)
+
+Lemma fm_self121 r fs : 128 <= r <= MaxRune -> fold_map121 r = Some fs -> In r (take_nz fs).
+Proof.
+  intros Hr F. destruct (FoldFacts2.fold_map_cases T121 R121 range121 pairs121 members121 r fs ltac:(lia) F) as (q & _ & Hd).
+  destruct fs as [|x fs]; cbn [hd] in Hd; [lia|]. subst x. cbn [take_nz]. replace (r =? 0) with false by lia. left. reflexivity.
+Qed.
+
+Lemma ul_false121 r u l : upper_lower121 r = (u, l, false) -> u = r /\ l = r.
+Proof.
+  unfold upper_lower121, to_upper_lower. intros H.
+  repeat match type of H with
+         | (if ?c then _ else _) = _ => destruct c
+         | (match ?x with _ => _ end) = _ => destruct x
+         end; inversion H; subst; split; reflexivity.
+Qed.
+
+Theorem lastindexbyte_refines121 s c : wf s -> 0 <= c < 256 -> Impl5.LastIndexByte s c = Ok (last_index_byte s c).
+Proof. apply lastindexbyte_refines. Qed.
+
+Theorem rabinkarp_rev_refines121 primeRK s sub :
+  wf s -> wf sub -> sub <> [] -> Impl7.indexRabinKarpRevUnicode fold121 lower primeRK s sub = Ok (last_index fold121 s sub).
+Proof. apply (rabinkarp_rev_refines fold121 lower (fold_facts_pkg p) width_facts121). Qed.
+
+Theorem lastIndexRune121 s r :
+  wf s -> ~ (0 <= r < 128) ->
+  Impl5.lastIndexRune fold_map121 upper_lower121 p s r = Ok (last_index_rune fold121 s r).
+Proof.
+  apply (lastIndexRune_ok fold121 fold_map121 upper_lower121).
+  - intros r0 x Hr Hx. rewrite cands_of_eq. apply cands_exact; assumption.
+  - intros x Hx. apply rune_error_alone. exact Hx.
+  - exact fm_self121.
+  - exact ul_false121.
+Qed.
+
+(* the whole of LastIndex, on every pair of byte strings, for every prime *)
+Theorem lastindex_refines121 primeRK s sub :
+  wf s -> wf sub ->
+  Impl7.LastIndex fold121 lower fold_map121 upper_lower121 primeRK p s sub = Ok (last_index fold121 s sub).
+Proof.
+  apply (lastindex_refines fold121 lower (fold_facts_pkg p) width_facts121 fold_map121 upper_lower121 primeRK p).
+  - intros r0 x Hr Hx. rewrite cands_of_eq. apply cands_exact; assumption.
+  - intros r0 x Hr Hx. apply ascii_cands_exact; assumption.
+  - intros x Hx. apply rune_error_alone. exact Hx.
+  - exact fm_self121.
+  - exact ul_false121.
+Qed.
 
 (* Count and Cut are loops around Index: instantiated with Index's specification *)
 Definition idx_spec (s t : bytes) : res Z := Ok (index fold121 s t).
